@@ -1057,6 +1057,42 @@ pub fn generate(seed: u64, thorough: bool, emit: &mut dyn FnMut(String)) {
             emit(format!("smul f {own} {} {}", req_mat_f(h, w, &a), rbits(*sc)));
         }
     }
+    // block boundaries: cache-blocked / panelled / SIMD-unrolled loops change behaviour exactly when a dimension passes the
+    // block size (16, 32, 64, 128, 256): each of the three dimensions of a product, and each dimension of a transpose / scalar
+    // form, one below, at, and one/two above every such size, the other dimensions small
+    for &blk in &[16usize, 32, 64, 128, 256] {
+        if blk == 256 && !thorough && seed % 2 == 1 {
+            continue;
+        }
+        for d in [blk - 1, blk, blk + 1, blk + 2, 2 * blk + 1] {
+            if d > 300 {
+                continue;
+            }
+            for which in 0..3 {
+                let small_a = 1 + rng.below(3) as usize;
+                let small_b = 1 + rng.below(3) as usize;
+                let (m, k, n) = match which {
+                    0 => (small_a, d, small_b),
+                    1 => (d, small_a, small_b),
+                    _ => (small_a, small_b, d),
+                };
+                let a = fill_i(&mut rng, m, k, 1);
+                let b = fill_i(&mut rng, k, n, 1);
+                emit(format!("dot i {} {}", req_mat_i(m, k, &a), req_mat_i(k, n, &b)));
+                let form = ["rr", "oo", "or", "ro"][(d + which) % 4];
+                emit(format!("mul i {form} {} {}", req_mat_i(m, k, &a), req_mat_i(k, n, &b)));
+                if which == 0 {
+                    let af = fill_f(&mut rng, m, k);
+                    let bf = fill_f(&mut rng, k, n);
+                    emit(format!("dot f {} {}", req_mat_f(m, k, &af), req_mat_f(k, n, &bf)));
+                    emit(format!("ident i {}", req_mat_i(m, k, &a)));
+                }
+                emit(format!("transpose i {}", req_mat_i(m, k, &a)));
+                emit(format!("transpose i {}", req_mat_i(k, n, &b)));
+                emit(format!("smul i r {} 3", req_mat_i(m, k, &a)));
+            }
+        }
+    }
     // sizes well beyond the exhaustive shape sweep (blocked / unrolled loops only show past their block size):
     // every shared dimension 6..40 at least once, outer dimensions 1..24
     let reps = if thorough { 12 } else { 2 };
